@@ -1130,6 +1130,7 @@ class ConstructedPayloadDecoderBase(AbstractConstructedPayloadDecoder):
                                                            **dict(options, allowEoo=True)):
                                     if isinstance(component, SubstrateUnderrunError):
                                         yield component
+                                        continue
 
                                     if component is eoo.endOfOctets:
                                         break
